@@ -519,3 +519,47 @@ def kinds_measure(node, classes, out):
     weighted += depth
     out.append((node, (nodes, depth, weighted)))
     return nodes, depth, weighted
+
+
+# ---- several dependencies, NAMED in another order than the fields are declared ------------------------------------------------
+# (the callable's parameters follow the names in the Dependent string; the values differ in TYPE, so a mix-up is an ill-typed field)
+from geneticengine.grammar.metahandlers.ints import IntList  # noqa: E402
+
+
+class UExpr(ABC):
+    pass
+
+
+@dataclass
+class ULen(UExpr):
+    unit: Annotated[str, VarRange(["px", "em"])]
+    width: Annotated[int, IntRange(1, 3)]
+    size: Annotated[int, Dependent("width,unit", lambda width, unit: IntList([width, 2 * width] if unit == "px" else [width]))]
+    label: Annotated[str, Dependent("size,unit,width", lambda size, unit, width: VarRange([unit * width, unit + unit]))]
+
+
+@dataclass
+class UPair(UExpr):
+    l: UExpr
+    r: UExpr
+
+
+def units_grammar():
+    return extract_grammar([ULen, UPair], UExpr)
+
+
+def units_type_errors(e, out=None) -> list:
+    out = [] if out is None else out
+    if isinstance(e, UPair):
+        for c in (e.l, e.r):
+            if not isinstance(c, UExpr):
+                out.append(f"UPair holds {c!r} where a production of UExpr is declared")
+            else:
+                units_type_errors(c, out)
+    elif isinstance(e, ULen):
+        for f, ty in (("unit", str), ("width", int), ("size", int), ("label", str)):
+            if type(getattr(e, f)) is not ty:
+                out.append(f"ULen.{f} holds {getattr(e, f)!r} where {ty.__name__} is declared")
+    else:
+        out.append(f"{e!r} is not a production of UExpr")
+    return out
